@@ -27,6 +27,9 @@ def build_cases(tier, seed):
     for pop, stmts in shapes.sample(shapes.loop_program(None, nest=True, in_routine=True), cnt, seed * 13 + 5):
         k += 1
         add(pop, stmts, 'nested-%d' % k)
+    for p in shapes.enumerate_all(shapes.return_from_loops_program()):
+        k += 1
+        add('three', p, 'ret-loops-%d' % k)
     return cases, n_single
 
 
